@@ -449,7 +449,7 @@ class C18(Property):
         envs = [[i] + [self.gen_value(rng, kinds[c]) for c in env_cols] for i in eids]
         lrns = [[i] + [self.gen_value(rng, kinds[c]) for c in lrn_cols] for i in lids]
         vals = [[i] + [self.gen_value(rng, kinds[c]) for c in val_cols] for i in vids]
-        present = rng.choice([1.0, 0.9, 0.75, 0.5])
+        present = rng.choice([1.0, 1.0, 0.92, 0.85, 0.7, 0.5])
         base = rng.choice([1, 2, 3, 3, 4, 5])
         ragged = rng.choice([0.0, 0.3, 0.6])
         evals = []
@@ -478,15 +478,24 @@ class C18(Property):
         r = rng.below(100)
         if r < 6:
             return rng.choice(ps), rng.choice(ls)        # swapped roles
+        if r < 50:                                       # pairings that can be complete
+            nv = len(set(e[2] for e in case["evals"]))
+            l = rng.choice(["learner_id", "learner_id", ["learner_id"]] + (["full_name"] if for_raw else []))
+            p = rng.choice(["environment_id", ["environment_id"]]) if (nv <= 1 or rng.chance(0.2)) else ["environment_id", "evaluator_id"]
+            if nv > 1 and rng.chance(0.3):
+                l, p = ["learner_id", "evaluator_id"], "environment_id"
+            return l, p
         return rng.choice(ls), rng.choice(ps)
 
-    def gen_n(self, rng):
-        return rng.choice([None, None, "min", "min", 0, 1, 2, 3, 3, 4, 5, 6])
+    def gen_n(self, rng, case=None):
+        lens = sorted(len(e[3]) for e in (case or {}).get("evals", [])) or [3]
+        ks = [lens[0], lens[0], lens[-1], lens[len(lens) // 2], lens[0] + 1, max(1, lens[0] - 1), 1, lens[-1] + 1]
+        return rng.choice([None, None, None, "min", "min", "min", 0] + ks)
 
     def gen_step(self, rng, case):
         r = rng.below(100)
         if r < 62:
-            st = {"op": "where_fin", "n": self.gen_n(rng)}
+            st = {"op": "where_fin", "n": self.gen_n(rng, case)}
             if rng.chance(0.85):
                 st["l"], st["p"] = self.gen_lp(rng, case)
             else:
@@ -564,7 +573,7 @@ class C18(Property):
         case = self.gen_result(rng)
         steps = []
         for _ in range(rng.choice([1, 2])):
-            st = {"op": "where_fin", "n": self.gen_n(rng)}
+            st = {"op": "where_fin", "n": self.gen_n(rng, case)}
             st["l"], st["p"] = self.gen_lp(rng, case)
             steps.append(st)
         steps.append(self.gen_raw(rng, case))
@@ -635,7 +644,8 @@ class C18(Property):
                 fails.append(F("B", "where(%s) raised %s: %s" % (st["kw"], rec["err"], rec.get("errmsg")), "where:raises-" + rec["err"]))
             impl_out.append({"post": snap_json(rec["post"])} if "post" in rec else ({"table": json.loads(json.dumps(rec.get("table"), default=str))} if "table" in rec else {"err": rec["err"]}))
             # (A)
-            if driver is not None and op in ("where_fin", "where", "raw_learners") and int_ok(pre):
+            undefined = op == "raw_learners" and st["x"] == "index" and st.get("span") == 0
+            if driver is not None and op in ("where_fin", "where", "raw_learners") and int_ok(pre) and not undefined:
                 model_out.append(self.correspond(st, rec, driver, coder, fails, tags))
             else:
                 model_out.append(None)
@@ -861,7 +871,8 @@ class C18(Property):
         else:
             tags.append("ma:undefined")
         model = None
-        if driver is not None:
+        if driver is not None and defined:      # where the textbook value is undefined (a window of total weight 0,
+            # violated assert, span<1 for 'exp') the statement demands nothing, so nothing is compared
             ans = driver.ask({"kind": "ma", "vs": case["vs"], "span": span, "w": w})
             model = ans["model"]
             if "err" in out or "err" in model:
